@@ -89,6 +89,28 @@ StepLaws == /\ IsInit /\ cs.k = "s" /\ last' = [op |-> "laws"] /\ UNCHANGED cs
 Next == StepLaws \/ StepAdd \/ StepMul \/ StepView \/ StepWrite \/ StepBox
 Spec == Init /\ [][Next]_vars
 
+\* Vacuity guard without `-coverage` (which slows this limb-arithmetic model down by a factor of 10 to 25): the
+\* number of distinct states TLC found must be EXACTLY the number of cases plus the number of (case, operation,
+\* argument) triples, i.e. every action was taken from every case it applies to.  POSTCONDITION in the cfg files.
+ExpActions ==
+  LET g[j \in 0..Len(SetToSeq(Formats))] ==
+        IF j = 0 THEN [cases |-> 0, laws |-> 0, add |-> 0, mul |-> 0]
+        ELSE LET f == SetToSeq(Formats)[j] nb == Cardinality(B(f)) prev == g[j - 1] IN   \* (one recursive reference: TLC does not memoise g)
+             [cases |-> prev.cases + nb, laws |-> prev.laws + nb,
+              add |-> prev.add + nb * Cardinality(Offsets(f)), mul |-> prev.mul + nb * Cardinality(Gains(f))]
+      fr == g[Len(SetToSeq(Formats))]
+      nv == Cardinality(SliceCases)
+  IN [SampleCases |-> IF DoFrame THEN fr.cases ELSE 0, StepLaws |-> IF DoFrame THEN fr.laws ELSE 0,
+      StepAdd |-> IF DoFrame THEN fr.add ELSE 0, StepMul |-> IF DoFrame THEN fr.mul ELSE 0,
+      SliceCases |-> IF DoSlice THEN nv ELSE 0, StepView |-> IF DoSlice THEN nv ELSE 0, StepBox |-> IF DoSlice THEN nv ELSE 0,
+      StepWrite |-> IF DoSlice THEN Cardinality({p \in SliceCases : Divides(p.n, p.l)}) ELSE 0]
+AllTaken ==
+  LET x == ExpActions
+      total == x.SampleCases + x.StepLaws + x.StepAdd + x.StepMul + x.SliceCases + x.StepView + x.StepBox + x.StepWrite
+  IN IF TLCGet("stats").distinct = total /\ (DoFrame => x.StepAdd > 0 /\ x.StepMul > 0) /\ (DoSlice => x.StepWrite > 0)
+       THEN \A k \in DOMAIN x : PrintT(<< "ACTION", k, x[k] >>)
+       ELSE PrintT(<< "VACUITY: distinct states # cases + transitions", TLCGet("stats").distinct, total, x >>) /\ FALSE
+
 ---------------------------------------------------------------------------
 (* C03: invariants on the sample cases *)
 FltOf(f) == FmtOf(FloatOf(f))
@@ -239,8 +261,11 @@ FFJ(f, a) == [i \in 1..Len(a) |-> FJ(f, a[i])]
 Reset(comp, tag) == [ev |-> "reset", comp |-> comp, cfg |-> [src |-> "tlc", tag |-> tag]]
 Exec(comp, tag, ops) == << Reset(comp, tag) >> \o SetToSeq(ops)
 ExecsOf(comp, tag, ops) == IF ops = {} THEN << >> ELSE << Exec(comp, tag, ops) >>
-RECURSIVE Concat(_)
-Concat(ss) == IF Len(ss) = 0 THEN << >> ELSE Head(ss) \o Concat(Tail(ss))
+RECURSIVE ConcatRange(_, _, _)
+ConcatRange(ss, lo, hi) == \* ss[lo] \o ... \o ss[hi], balanced (thousands of executions: no deep recursion, no quadratic copying)
+  IF lo > hi THEN << >> ELSE IF lo = hi THEN ss[lo]
+  ELSE LET mid == (lo + hi) \div 2 IN ConcatRange(ss, lo, mid) \o ConcatRange(ss, mid + 1, hi)
+Concat(ss) == ConcatRange(ss, 1, Len(ss))
 FmtSeq == SetToSeq(Formats)
 
 \* sample-level: exactly the transitions explored above
@@ -345,8 +370,7 @@ InPlaceExecs(f) ==
 StimuliOf(part) ==
      (IF part \in {"all", "frame"} THEN Concat([j \in 1..Len(FmtSeq) |-> SampleExecs(FmtSeq[j]) \o FrameExecs(FmtSeq[j])]) ELSE << >>)
   \o (IF part \in {"all", "slice"} THEN Concat([j \in 1..Len(FmtSeq) |-> SliceExecs(FmtSeq[j]) \o InPlaceExecs(FmtSeq[j])]) ELSE << >>)
-RECURSIVE SumLen(_)
-SumLen(ss) == IF Len(ss) = 0 THEN 0 ELSE Len(Head(ss)) - 1 + SumLen(Tail(ss))
+SumLen(ss) == FoldSeq(LAMBDA e, acc : acc + Len(e) - 1, 0, ss)            \* events, resets not counted (iterative: thousands of executions)
 ASSUME IF "STIM_OUT" \in DOMAIN IOEnv
          THEN LET st == StimuliOf(Part) IN
               /\ ndJsonSerialize(IOEnv.STIM_OUT, st)
